@@ -27,6 +27,8 @@ fn any_version() -> ProtocolVersion {
 
 /// decode `T` from `L` arbitrary bytes through BinReader; no panic, bounded allocation
 fn decode_any<T: Readable, const L: usize>() {
+	env::set_chain_type(grin_core::global::ChainTypes::AutomatedTesting);
+	env::set_nrd_enabled(true);
 	let buf: [u8; L] = nd::any();
 	let v = any_version();
 	env::alloc_reset();
@@ -49,6 +51,70 @@ decode_harness!(merkle_proof_read_48, MerkleProof, 48);
 decode_harness!(segment_proof_read_8, SegmentProof, 8);
 decode_harness!(segment_proof_read_40, SegmentProof, 40);
 decode_harness!(segment_identifier_read_9, SegmentIdentifier, 9);
+// consensus objects
+decode_harness!(txkernel_read_114, TxKernel, 114);
+decode_harness!(txkernel_read_60, TxKernel, 60);
+proof! {
+	[alloc] fn rangeproof_read_length_boundaries() {
+		// structure-aware: the 8-byte length prefix is set to each boundary value in turn
+		// (concrete per case, so every copy has a concrete size), the following bytes are symbolic
+		use grin_util::secp::constants::MAX_PROOF_SIZE;
+		const L: usize = 8 + MAX_PROOF_SIZE + 8;
+		let mut buf: [u8; L] = nd::any();
+		let lens: [u64; 8] = [0, 1, MAX_PROOF_SIZE as u64 - 1, MAX_PROOF_SIZE as u64, MAX_PROOF_SIZE as u64 + 1,
+			MAX_PROOF_SIZE as u64 + 8, 100_000, 100_001];
+		let mut k = 0;
+		while k < lens.len() {
+			buf[..8].copy_from_slice(&lens[k].to_be_bytes());
+			env::alloc_reset();
+			env::alloc_limit(alloc_bound(L));
+			let r = ser::deserialize::<grin_util::secp::pedersen::RangeProof, _>(&mut &buf[..], ProtocolVersion(1), DeserializationMode::default());
+			if let Ok(p) = &r {
+				check!(p.plen <= MAX_PROOF_SIZE, "decoded proof length within the proof buffer");
+			}
+			cover!(r.is_ok() && k == 3, "a maximal proof decodes");
+			core::mem::forget(r);
+			k += 1;
+		}
+	}
+}
+decode_harness!(rangeproof_read_24, grin_util::secp::pedersen::RangeProof, 24);
+decode_harness!(transaction_body_read_64, grin_core::core::TransactionBody, 64);
+proof! {
+	[alloc] fn pow_proof_read_edge_bits_sweep() {
+		// tag/size byte swept over boundary values (concrete per case), remaining bytes symbolic
+		env::set_chain_type(grin_core::global::ChainTypes::AutomatedTesting);
+		let mut buf: [u8; 72] = nd::any();
+		let ebs: [u8; 9] = [0, 1, 7, 8, 10, 63, 64, 128, 255];
+		let mut k = 0;
+		while k < ebs.len() {
+			buf[0] = ebs[k];
+			env::alloc_reset();
+			env::alloc_limit(alloc_bound(72));
+			let r = ser::deserialize::<grin_core::pow::Proof, _>(&mut &buf[..], ProtocolVersion(1), DeserializationMode::default());
+			if ebs[k] == 0 || ebs[k] > 63 {
+				check!(r.is_err(), "edge_bits outside 1..=63 refused");
+			}
+			if let Ok(p) = &r {
+				check!(p.nonces.len() == 8 && p.edge_bits == ebs[k], "decoded shape");
+			}
+			core::mem::forget(r);
+			k += 1;
+		}
+	}
+}
+// p2p message bodies
+decode_harness!(p2p_hand_read_96, grin_p2p::msg::Hand, 96);
+decode_harness!(p2p_shake_read_64, grin_p2p::msg::Shake, 64);
+decode_harness!(p2p_peer_addrs_read_48, grin_p2p::msg::PeerAddrs, 48);
+decode_harness!(p2p_locator_read_40, grin_p2p::msg::Locator, 40);
+decode_harness!(p2p_peer_error_read_24, grin_p2p::msg::PeerError, 24);
+decode_harness!(p2p_ping_read_16, grin_p2p::msg::Ping, 16);
+decode_harness!(p2p_ban_reason_read_4, grin_p2p::msg::BanReason, 4);
+decode_harness!(p2p_segment_request_read_41, grin_p2p::msg::SegmentRequest, 41);
+decode_harness!(p2p_txhashset_request_read_40, grin_p2p::msg::TxHashSetRequest, 40);
+// chain
+decode_harness!(bitmap_segment_read_48, grin_chain::txhashset::BitmapSegment, 48);
 
 proof! {
 	[alloc] fn merkle_proof_from_hex_ascii_32() {
@@ -179,6 +245,22 @@ pub const HARNESSES: &[(&str, fn())] = &[
 	("c11::segment_proof_read_8", segment_proof_read_8),
 	("c11::segment_proof_read_40", segment_proof_read_40),
 	("c11::segment_identifier_read_9", segment_identifier_read_9),
+	("c11::txkernel_read_114", txkernel_read_114),
+	("c11::txkernel_read_60", txkernel_read_60),
+	("c11::rangeproof_read_length_boundaries", rangeproof_read_length_boundaries),
+	("c11::rangeproof_read_24", rangeproof_read_24),
+	("c11::transaction_body_read_64", transaction_body_read_64),
+	("c11::pow_proof_read_edge_bits_sweep", pow_proof_read_edge_bits_sweep),
+	("c11::p2p_hand_read_96", p2p_hand_read_96),
+	("c11::p2p_shake_read_64", p2p_shake_read_64),
+	("c11::p2p_peer_addrs_read_48", p2p_peer_addrs_read_48),
+	("c11::p2p_locator_read_40", p2p_locator_read_40),
+	("c11::p2p_peer_error_read_24", p2p_peer_error_read_24),
+	("c11::p2p_ping_read_16", p2p_ping_read_16),
+	("c11::p2p_ban_reason_read_4", p2p_ban_reason_read_4),
+	("c11::p2p_segment_request_read_41", p2p_segment_request_read_41),
+	("c11::p2p_txhashset_request_read_40", p2p_txhashset_request_read_40),
+	("c11::bitmap_segment_read_48", bitmap_segment_read_48),
 	("c11::merkle_proof_from_hex_ascii_32", merkle_proof_from_hex_ascii_32),
 	("c11::util_from_hex_utf8_4", util_from_hex_utf8_4),
 	("c11::segment_validate_h0_s1_empty", segment_validate_h0_s1_empty),
